@@ -238,9 +238,102 @@ def c_from_bytes(eng, st, fr, f, args, site):
     return [(st, eng.int_from_bits(st, tuple(bits), ii[0], ii[1]))]
 
 
-@contract(r"^(core|std)::slice::<impl \[T\]>::(first|last|get)$")
+def byte_read(eng, base, off):
+    """The named single-byte read of sequence `base` at offset `off` (shared naming with indexing and the nom contracts)."""
+    name = "rd[%s@%s:1:1]" % (base if not isinstance(base, tuple) else "arr", off)
+    eng.rd_syms[name] = (base, off, 1, "1")
+    return eng.named_int(name, 8, False)
+
+
+@contract(r"^(core|std)::slice::<impl \[T\]>::(first|last|get)$|^(core|std)::str::<impl str>::get$")
 def c_slice_get(eng, st, fr, f, args, site):
-    return None
+    """`s.get(i)` / `s.get(range)` / `first()` / `last()`: Some(..) exactly when the index / range is within bounds
+    (the checked form of indexing: no obligation, two outcomes)."""
+    vw = view(eng, st, args[0])
+    rt = ret_ty(eng, site)
+    if vw is None or rt is None:
+        return None
+    name = f["path"].split("::")[-1]
+    ln = vw["len"]
+    if name == "first":
+        rb = (Lin.const(0), Lin.const(1), "index")
+    elif name == "last":
+        rb = (ln.sub(1), ln, "index")
+    else:
+        if len(args) < 2:
+            return None
+        rb = range_bounds(eng, st, args[1], ln)
+    if rb is None:
+        return None
+    s, e, kind = rb
+    if "str" in f["path"] and kind != "full":
+        return None  # char boundaries
+    outs = []
+    ns = st.fork()
+    try:
+        ns.add_fact(s, eng)
+        ns.add_fact(e.sub(s), eng)
+        ns.add_fact(ln.sub(e), eng)
+        if kind == "index":
+            if vw.get("arr") is not None and s.is_const():
+                val = Ref(vw["ref"].loc, vw["ref"].path + (("i", s),), False)
+            else:
+                loc = "obj:elem#%d" % eng._hv()
+                ns.locs[loc] = vw["elem"] if vw["elem"] is not None else byte_read(eng, vw["base"], vw["off"].add(s))
+                val = Ref(loc, (), False)
+        else:
+            val = Slice(vw["base"], vw["off"].add(s), e.sub(s), vw["elem"])
+        outs.append((ns, Enum(rt, ((1, (val,)),), "opt")))
+    except Dead:
+        pass
+    # None: out of bounds.  For the one-sided forms the negation is a single linear fact.
+    ns = st.fork()
+    try:
+        if kind in ("to", "to=", "index") or (kind == "range" and st.holds(e.sub(s), eng)) or (kind == "from"):
+            hi = e if kind != "from" else s
+            ns.add_fact(hi.sub(ln).sub(1), eng)   # hi > len
+        elif kind == "full":
+            raise Dead()
+        outs.append((ns, Enum(rt, ((0, ()),), "opt")))
+    except Dead:
+        pass
+    return outs
+
+
+@contract(r"^(std|core)::array::<impl (std|core)::convert::TryFrom<&(mut )?\[T\]> for \[T; N\]>::try_from$|^(std|core)::array::<impl (std|core)::convert::TryFrom<&'a (mut )?\[T\]> for &'a (mut )?\[T; N\]>::try_from$")
+def c_array_try_from(eng, st, fr, f, args, site):
+    """`<[u8; N]>::try_from(slice)`: Ok(the N elements) exactly when the slice has N elements."""
+    vw = view(eng, st, args[0])
+    rt = ret_ty(eng, site)
+    if vw is None or rt is None:
+        return None
+    at = variant_payload_ty(eng, rt, 0)
+    if at is None:
+        return None
+    t = eng.T.t(at)
+    by_ref = t["k"] == "ref"
+    if by_ref:
+        t = eng.T.t(t["to"])
+    if t["k"] != "array" or not isinstance(t.get("len"), int) or t["len"] > 32 or vw["elem"] is not None:
+        return None
+    n = t["len"]
+    outs = []
+    ns = st.fork()
+    try:
+        ns.add_fact(vw["len"].sub(n), eng)
+        ns.add_fact(Lin.const(n).sub(vw["len"]), eng)
+        arr = Arr(at if not by_ref else eng.T.t(at)["to"], tuple(byte_read(eng, vw["base"], vw["off"].add(i)) for i in range(n)))
+        if by_ref:
+            loc = "obj:arr#%d" % eng._hv()
+            ns.locs[loc] = arr
+            arr = Ref(loc, (), False)
+        outs.append((ns, Enum(rt, ((0, (arr,)),), "res")))
+    except Dead:
+        pass
+    if not (st.holds(vw["len"].sub(n), eng) and st.holds(Lin.const(n).sub(vw["len"]), eng)):
+        et = variant_payload_ty(eng, rt, 1)
+        outs.append((st.fork(), Enum(rt, ((1, (Top(et, "tryfrom_err#%d" % eng._hv()),)),), "res")))
+    return outs
 
 
 # ------------------------------------------------------------------ copies
